@@ -28,6 +28,8 @@ func init() {
 func runC11(c *report.Ctx) {
 	p := c.P
 	ruleSoleWriter(c)
+	rulePrefixLimit(c)
+	ruleBucketCacheKey(c)
 
 	// ---- (2) writer exclusion ----------------------------------------------------------------------
 	c.Rule("writer-lock", "BeginTx acquires LevelDB.muTr and returns holding it; Commit and Rollback release it exactly when the transaction is a write transaction", 4)
